@@ -4,7 +4,7 @@ import re
 
 from ..pycalls import CallGraph
 from ..pycfg import CFG, walk_no_nested
-from ..source import AnalysisError, find_function, find_class, first_line, src, functions, qualname, enclosing_function
+from ..source import atoms, atom_key, truth, side, AnalysisError, find_function, find_class, first_line, src, functions, qualname, enclosing_function
 
 UTILS = "nemoguardrails/rails/llm/utils.py"
 LLMRAILS = "nemoguardrails/rails/llm/llmrails.py"
@@ -33,14 +33,38 @@ def run(ctx):
     d_shared_action_state(ctx)
 
 
+def _roles_of_test(test):
+    """The roles for which a test is true, when the test is a disjunction of `<msg>["role"] == "<role>"` / `<msg>["role"] in (<roles>)` (either operand order); else None."""
+    if isinstance(test, ast.BoolOp) and isinstance(test.op, ast.Or):
+        out = []
+        for v in test.values:
+            r = _roles_of_test(v)
+            if r is None:
+                return None
+            out += r
+        return out
+    if isinstance(test, ast.Compare) and len(test.ops) == 1:
+        l, r = test.left, test.comparators[0]
+        def is_role(e):
+            return (isinstance(e, ast.Subscript) and isinstance(e.slice, ast.Constant) and e.slice.value == "role") or \
+                (isinstance(e, ast.Call) and isinstance(e.func, ast.Attribute) and e.func.attr == "get" and e.args and isinstance(e.args[0], ast.Constant) and e.args[0].value == "role")
+        if isinstance(test.ops[0], ast.Eq):
+            if is_role(l) and isinstance(r, ast.Constant):
+                return [r.value]
+            if is_role(r) and isinstance(l, ast.Constant):
+                return [l.value]
+        if isinstance(test.ops[0], ast.In) and is_role(l) and isinstance(r, (ast.Tuple, ast.List, ast.Set)) and all(isinstance(e, ast.Constant) for e in r.elts):
+            return [e.value for e in r.elts]
+    return None
+
+
 def _role_branches(fn, msgvar=None):
-    """{role: If node} for tests `<msg>["role"] == "<role>"`"""
+    """{role: [If nodes whose body runs for that role]}"""
     out = {}
     for n in ast.walk(fn):
-        if isinstance(n, ast.If) and isinstance(n.test, ast.Compare) and len(n.test.ops) == 1 and isinstance(n.test.ops[0], ast.Eq):
-            l, r = n.test.left, n.test.comparators[0]
-            if isinstance(l, ast.Subscript) and isinstance(l.slice, ast.Constant) and l.slice.value == "role" and isinstance(r, ast.Constant):
-                out.setdefault(r.value, []).append(n)
+        if isinstance(n, ast.If):
+            for role in _roles_of_test(n.test) or []:
+                out.setdefault(role, []).append(n)
     return out
 
 
@@ -238,7 +262,10 @@ def c_restore(ctx):
                   "the restore of a saved attribute can be skipped (%s): an attribute whose configured value is None (e.g. max_tokens) keeps the per-request override for all later requests"
                   % ("early `%s` in the loop" % type(skips[0]).__name__.lower() if skips else "it is conditional on the saved value"), line=lp.lineno)
     # branch 2: model_kwargs
-    adds = [n for n in ast.walk(enter) if isinstance(n, ast.If) and re.search(r"%s not in .*model_kwargs" % re.escape(P), src(n.test))]
+    # the branch of __enter__ that ADDS a key that was not in model_kwargs before (either polarity of the membership test)
+    adds = [n for n in ast.walk(enter) if isinstance(n, ast.If) and any(
+        isinstance(a_, ast.Compare) and len(a_.ops) == 1 and isinstance(a_.ops[0], (ast.In, ast.NotIn)) and src(a_.left) == P and "model_kwargs" in src(a_.comparators[0])
+        for a_ in atoms(n.test))]
     sets2 = any(isinstance(a, ast.Assign) and re.search(r"model_kwargs\[\s*%s\s*\]" % re.escape(P), src(a.targets[0])) for a in ast.walk(enter))
     if sets2:
         back2 = any(isinstance(a, ast.Assign) and re.search(r"model_kwargs\[\s*%s\s*\]$" % re.escape(P2), src(a.targets[0])) and src(a.value) == V2 for a in ast.walk(exit_))
